@@ -312,7 +312,8 @@ theorem deleteOldest_concat (s : State α) (ys : List (List (α × α))) (e : α
               * (e.1 / (Num.ofNat (2 ^ ys.length) : α) - (s.total - e.1) / (Num.ofNat (s.width - 2 ^ ys.length) : α))
               * (e.1 / (Num.ofNat (2 ^ ys.length) : α) - (s.total - e.1) / (Num.ofNat (s.width - 2 ^ ys.length) : α))
               / Num.ofNat (2 ^ ys.length + (s.width - 2 ^ ys.length)))
-        err := s.err || Num.lt (s.total - e.1) Num.zero } := by
+        err := s.err || Num.lt (s.total - e.1) Num.zero
+        numBuckets := s.numBuckets - 1 } := by
   unfold deleteOldest; simp [h]
 
 theorem deleteOldest_width_le (s : State α) : (deleteOldest s).width ≤ s.width := by
